@@ -173,6 +173,8 @@ def run_guarded(pid, fn):
     try:
         return fn()
     except AnalysisError as e:
+        if os.environ.get('VERIF_TRACE'):
+            traceback.print_exc()
         print(f'ANALYSIS-ERROR property={pid} {e}')
         return 2
     except SystemExit:
